@@ -318,6 +318,15 @@ Theorem c11_validated_members : forall fuel f incs,
 Proof. exact validated_members. Qed.
 Print Assumptions c11_validated_members.
 
+(** every scope of a validated file names each prefix variable once (each becomes a parameter of the
+    generated publisher and subscriber): the check added by the repair of C11-K12, in the model
+    whose diagnostics the judge compares byte for byte with Frugal.validate *)
+Theorem c11_validated_scope_prefix_variables_distinct : forall fuel f incs,
+  (S (length (fr_typedefs f)) <= fuel)%nat -> cvalidate fuel f incs = ROk ->
+  forall s, In s (fr_scopes f) -> NoDup (p_vars (sc_prefix s)).
+Proof. exact validated_prefix_vars. Qed.
+Print Assumptions c11_validated_scope_prefix_variables_distinct.
+
 Theorem c11_validated_dup_names_refuted :
   cvalidate_pinned 10 w_dupname [] = ROk
   /\ (forall s, In s (fr_structs w_dupname) -> ~ NoDup (map f_name (s_fields s)))
